@@ -402,7 +402,8 @@ impl World {
         }
     }
 
-    /// what a descriptor designates, with the side prefix removed
+    /// what a descriptor designates, with the side prefix removed: link target (unnamed files without their
+    /// inode number), file type and permission bits, "no name left" (nlink == 0), status and descriptor flags
     pub fn identity(&self, fd: i32) -> String {
         let link = std::fs::read_link(format!("/proc/self/fd/{fd}"))
             .map(|p| p.to_string_lossy().to_string())
@@ -413,16 +414,32 @@ impl World {
                 l = format!("<side>{rest}");
             }
         }
+        // O_TMPFILE files show as ".../#<inode> (deleted)"
+        if let Some(p) = l.find("/#") {
+            let digits: String = l[p + 2..].chars().take_while(char::is_ascii_digit).collect();
+            if !digits.is_empty() {
+                l = format!("{}/#<ino>{}", &l[..p], &l[p + 2 + digits.len()..]);
+            }
+        }
         let fl = sys::fcntl(fd, 3, 0);
         let fdfl = sys::fcntl(fd, 1, 0);
+        let mut stx = [0u64; 32];
+        let r = sys::statx(i64::from(fd), b"\0", 0x1000, 0x7ff, stx.as_mut_ptr().cast());
+        let (mode, nlink) = if r == 0 {
+            let b = unsafe { core::slice::from_raw_parts(stx.as_ptr().cast::<u8>(), 256) };
+            (u32::from(u16::from_ne_bytes([b[28], b[29]])), u32::from_ne_bytes([b[16], b[17], b[18], b[19]]))
+        } else {
+            (0, 0)
+        };
+        let st = format!("mode={mode:o} unnamed={}", nlink == 0);
         if l.starts_with("socket:") {
             let d = sys::getsockopt_int(fd, 1, 39);
             let t = sys::getsockopt_int(fd, 1, 3);
             let p = sys::getsockopt_int(fd, 1, 38);
             let acc = sys::getsockopt_int(fd, 1, 30);
-            format!("socket dom={d} type={t} proto={p} listening={acc} fl={fl:o} fdfl={fdfl}")
+            format!("socket dom={d} type={t} proto={p} listening={acc} {st} fl={fl:o} fdfl={fdfl}")
         } else {
-            format!("{l} fl={fl:o} fdfl={fdfl}")
+            format!("{l} {st} fl={fl:o} fdfl={fdfl}")
         }
     }
 
